@@ -102,6 +102,22 @@ fn pick_inherited(c: &mut Choices<'_>, s: &SchemaDoc, edges: Option<bool>) -> Op
 }
 
 /// Applies one mutation; returns None when it is not applicable to this schema.
+/// Puts the parameter under test among zero to two well-formed neighbours (a default-less nullable one, one with a
+/// fitting default), before and/or after it: whether a parameter's default is checked must not depend on its position
+/// or on what the other parameters of the edge declare.
+fn with_neighbour_params(c: &mut Choices<'_>, p: ParamDef) -> Vec<ParamDef> {
+    let plain = |name: &str| ParamDef { name: name.into(), ty: Ty::named("Int", true), default: None };
+    let defaulted = |name: &str| ParamDef { name: name.into(), ty: Ty::named("String", true), default: Some(Value::str("x")) };
+    match c.below(6) {
+        0 => vec![p],
+        1 => vec![plain("before"), p],
+        2 => vec![defaulted("pre"), p],
+        3 => vec![p, plain("after")],
+        4 => vec![plain("before"), p, defaulted("post")],
+        _ => vec![defaulted("pre"), plain("before"), p],
+    }
+}
+
 fn apply(c: &mut Choices<'_>, s: &mut SchemaDoc, label: &'static str) -> Option<Applied> {
     let vi = vertex_indices(s);
     let pick_v = |c: &mut Choices<'_>| vi[c.below(vi.len())];
@@ -362,7 +378,7 @@ fn apply(c: &mut Choices<'_>, s: &mut SchemaDoc, label: &'static str) -> Option<
             s.types[ti].fields.push(FieldDef {
                 name: format!("{}_list_default_edge{}", if label == "default_valid_list" { "good" } else { "bad" }, n_fields),
                 ty: Ty { base: target, nulls: vec![true, false] },
-                params: vec![ParamDef { name: "xs".into(), ty: Ty { base: "Int".into(), nulls }, default: Some(default) }],
+                params: with_neighbour_params(c, ParamDef { name: "xs".into(), ty: Ty { base: "Int".into(), nulls }, default: Some(default) }),
                 doc: None,
             });
         }
@@ -379,7 +395,7 @@ fn apply(c: &mut Choices<'_>, s: &mut SchemaDoc, label: &'static str) -> Option<
             s.types[ti].fields.push(FieldDef {
                 name: "bad_default_edge".into(),
                 ty: Ty { base: target, nulls: vec![true, false] },
-                params: vec![ParamDef { name: "n".into(), ty: pty, default: Some(default_text) }],
+                params: with_neighbour_params(c, ParamDef { name: "n".into(), ty: pty, default: Some(default_text) }),
                 doc: None,
             });
         }
